@@ -121,8 +121,9 @@ CapUnit(i) ==
 \* 1-4: legal in a Go raw string but not in an encoding/json tag name (never bound: deviation TagInvalidKeyUnbound);
 \* 5-7: a backtick ends the raw string that holds the tag; a double quote or a newline is legal there (the tag is then
 \* garbage to reflect: unbound) but breaks the interpreted raw["..."] of a required check (the emitted file does not
-\* parse: deviation TagSyntaxBrokenByName); 8-10: punctuation encoding/json does accept (space, colon, equals sign): must simply work
-TagNames == <<"don't", "tab\tkey", "i,j", "e\\f", "a\"b", "c`d", "g\nh", "ok key", "k:l", "a=b">>
+\* parse: deviation TagSyntaxBrokenByName); 8-13: punctuation encoding/json does accept (space, colon, equals sign, percent
+\* signs that look like printf verbs, braces, brackets): must simply work
+TagNames == <<"don't", "tab\tkey", "i,j", "e\\f", "a\"b", "c`d", "g\nh", "ok key", "k:l", "a=b", "cpu%", "100%s", "%d{x}[1]">>
 TagUnit(i, req) ==
   LET n == TagNames[i] IN
   [prop |-> "C14", fam |-> "tagchars",
